@@ -381,9 +381,11 @@ Proof.
     change (NL =? NL) with true. cbv iota.
     unfold X. cbn [map concat].
     pose proof (lex_line_start ind i l2 (concat (map (block_format_line i) rest2)) Hi) as Hstart.
-    destruct (if ind then lexr_ws1 _ else Some _) as [s2|]; [|contradiction].
-    rewrite Hstart.
-    apply (IH Hokrest). cbn [length] in *. lia.
+    destruct ind.
+    + destruct (lexr_ws1 (block_format_line i l2 ++ concat (map (block_format_line i) rest2))) as [s2|];
+        [|contradiction].
+      rewrite Hstart. apply (IH Hokrest). cbn [length] in *. lia.
+    + rewrite Hstart. apply (IH Hokrest). cbn [length] in *. lia.
 Qed.
 
 Lemma block_lexr_lines i ls :
@@ -422,3 +424,502 @@ Proof.
   unfold dom_block_indent, dom_block_value, block_format. cbn [block_splitlines]. intros Hi Hv.
   apply block_lexr_lines; [exact Hi | apply splitlines_is_lines | exact Hv].
 Qed.
+
+(* --- every BLOCK_COMMENT lexeme is accepted by _parse_value (the statement D8 breaks) --- *)
+Definition has_semi (l : str) : bool := has_after (split1 SEMI l).
+Lemma has_semi_cons c l : has_semi (c :: l) = (c =? SEMI) || has_semi l.
+Proof.
+  unfold has_semi, has_after. cbn [split1]. destruct (c =? SEMI); [reflexivity|].
+  destruct (split1 SEMI l); reflexivity.
+Qed.
+(* every LF-terminated piece and the last piece contain ';' (seen: the current piece already does) *)
+Fixpoint semi_scan (seen : bool) (s : str) : bool :=
+  match s with
+  | [] => seen
+  | c :: r => if c =? NL then seen && semi_scan false r else semi_scan (seen || (c =? SEMI)) r
+  end.
+Lemma semi_scan_lines s : forall seen,
+  match splitlines_nl s with
+  | l :: ls => (seen || has_semi l) && forallb has_semi ls
+  | [] => false
+  end = semi_scan seen s.
+Proof.
+  induction s as [|c s IH]; intros seen.
+  - cbn. rewrite orb_false_r, andb_true_r. reflexivity.
+  - cbn [splitlines_nl semi_scan]. destruct (c =? NL) eqn:E.
+    + rewrite <- (IH false). change (has_semi [c]) with (has_after (split1 SEMI [c])). cbn [split1].
+      apply Z.eqb_eq in E. subst c. change (NL =? SEMI) with false. cbn [has_after snd].
+      rewrite orb_false_r. destruct (splitlines_nl s) as [|l ls] eqn:Es; [|reflexivity].
+      pose proof (is_lines_nonempty _ (splitlines_is_lines s)) as H. rewrite Es in H. congruence.
+    + rewrite <- (IH (seen || (c =? SEMI))).
+      destruct (splitlines_nl s) as [|l ls] eqn:Es.
+      * pose proof (is_lines_nonempty _ (splitlines_is_lines s)) as H. rewrite Es in H. congruence.
+      * rewrite has_semi_cons, orb_assoc. reflexivity.
+Qed.
+Lemma semi_scan_app a b : forallb no_nl a = true -> forall seen,
+  semi_scan seen (a ++ b) = semi_scan (seen || existsb (fun c => c =? SEMI) a) b.
+Proof.
+  induction a as [|c a IH]; intros Ha seen; cbn [app existsb]; [rewrite orb_false_r; reflexivity|].
+  cbn [forallb] in Ha. apply andb_prop in Ha as [Hc Ha]. unfold no_nl in Hc. apply negb_true_iff in Hc.
+  cbn [semi_scan]. rewrite Hc, (IH Ha), orb_assoc. reflexivity.
+Qed.
+Lemma semi_scan_true_app a b : forallb no_nl a = true -> semi_scan true (a ++ b) = semi_scan true b.
+Proof. intros Ha. rewrite (semi_scan_app _ _ Ha). reflexivity. Qed.
+
+Lemma cr_no_nl c : is_cr c = true -> no_nl c = true.
+Proof. unfold is_cr, no_nl, CR, NL. intros H. apply Z.eqb_eq in H. subst c. reflexivity. Qed.
+Lemma ws_no_nl c : is_ws c = true -> no_nl c = true.
+Proof. unfold is_ws, no_nl, SPACE, TAB, NL. intros H. lia. Qed.
+Lemma not_crnl_no_nl c : not_crnl c = true -> no_nl c = true.
+Proof. unfold not_crnl, is_crnl, no_nl. intros H. lia. Qed.
+
+Lemma lexr_newline_shape s s1 : lexr_newline s = Some s1 ->
+  exists crs, s = crs ++ NL :: s1 /\ forallb no_nl crs = true.
+Proof.
+  unfold lexr_newline. destruct (skip_prefix is_cr s) as [pre [H1 H2]].
+  destruct (skip is_cr s) as [|c r]; [discriminate|]. destruct (c =? NL) eqn:E; [|discriminate].
+  intros H. inversion H; subst s1. apply Z.eqb_eq in E. subst c. exists pre. split; [exact H1|].
+  revert H2. apply forallb_imp. exact cr_no_nl.
+Qed.
+Lemma lexr_ws1_shape s s1 : lexr_ws1 s = Some s1 ->
+  exists ws, s = ws ++ s1 /\ forallb no_nl ws = true.
+Proof.
+  unfold lexr_ws1. destruct s as [|c r]; [discriminate|]. destruct (is_ws c) eqn:E; [|discriminate].
+  intros H. inversion H; subst s1. destruct (skip_prefix is_ws r) as [pre [H1 H2]].
+  exists (c :: pre). split; [cbn [app]; rewrite <- H1; reflexivity|].
+  cbn [forallb]. rewrite (ws_no_nl _ E). revert H2. apply forallb_imp. exact ws_no_nl.
+Qed.
+Lemma lexr_inline_shape s s1 : lexr_inline s = Some s1 ->
+  exists body, s = SEMI :: body ++ s1 /\ forallb no_nl body = true.
+Proof.
+  unfold lexr_inline. destruct s as [|c r]; [discriminate|]. destruct (c =? SEMI) eqn:E; [|discriminate].
+  intros H. inversion H; subst s1. apply Z.eqb_eq in E. subst c.
+  destruct (skip_prefix not_crnl r) as [pre [H1 H2]]. exists pre. split; [rewrite <- H1; reflexivity|].
+  revert H2. apply forallb_imp. exact not_crnl_no_nl.
+Qed.
+Lemma semi_scan_after_semi seen body s3 :
+  forallb no_nl body = true -> semi_scan seen (SEMI :: body ++ s3) = semi_scan true s3.
+Proof.
+  intros Hb. cbn [semi_scan]. change (SEMI =? NL) with false. change (SEMI =? SEMI) with true.
+  rewrite orb_true_r. apply semi_scan_true_app. exact Hb.
+Qed.
+
+Lemma block_loop_semi ind fuel : forall s, block_loop ind fuel s = [] -> semi_scan true s = true.
+Proof.
+  induction fuel as [|f IH]; intros s H; cbn [block_loop] in H; [subst s; reflexivity|].
+  destruct (lexr_newline s) as [s1|] eqn:E1; [|subst s; reflexivity].
+  destruct (lexr_newline_shape _ _ E1) as [crs [Hs Hcrs]].
+  assert (Hne : s <> []) by (rewrite Hs; destruct crs; discriminate).
+  destruct (if ind then lexr_ws1 s1 else Some s1) as [s2|] eqn:E2; [|congruence].
+  destruct (lexr_inline s2) as [s3|] eqn:E3; [|congruence].
+  destruct (lexr_inline_shape _ _ E3) as [body [Hs2 Hbody]].
+  assert (Hs1 : exists ws, s1 = ws ++ s2 /\ forallb no_nl ws = true).
+  { destruct ind; [apply lexr_ws1_shape; exact E2|]. inversion E2. exists []. split; reflexivity. }
+  destruct Hs1 as [ws [Hs1 Hws]].
+  rewrite Hs, (semi_scan_true_app _ _ Hcrs). cbn [semi_scan]. change (NL =? NL) with true. cbn [andb].
+  rewrite Hs1, (semi_scan_app _ _ Hws), Hs2, (semi_scan_after_semi _ _ _ Hbody). apply IH. exact H.
+Qed.
+
+Lemma lexeme_semi_scan s : lexr_block s = Some [] -> semi_scan false s = true.
+Proof.
+  unfold lexr_block. destruct (lexr_ws1 s) as [s1|] eqn:E1.
+  - destruct (lexr_inline s1) as [r|] eqn:E2; [|discriminate]. intros H. inversion H as [H'].
+    destruct (lexr_ws1_shape _ _ E1) as [ws [Hs Hws]]. destruct (lexr_inline_shape _ _ E2) as [body [Hs1 Hbody]].
+    rewrite Hs, (semi_scan_app _ _ Hws), Hs1, (semi_scan_after_semi _ _ _ Hbody).
+    apply (block_loop_semi _ _ _ H').
+  - destruct (lexr_inline s) as [r|] eqn:E2; [|discriminate]. intros H. inversion H as [H'].
+    destruct (lexr_inline_shape _ _ E2) as [body [Hs1 Hbody]].
+    rewrite Hs1, (semi_scan_after_semi _ _ _ Hbody). apply (block_loop_semi _ _ _ H').
+Qed.
+
+Lemma forallb_map {A B} (f : A -> B) (p : B -> bool) l : forallb p (map f l) = forallb (fun x => p (f x)) l.
+Proof. induction l as [|x l IH]; [reflexivity|]. cbn [map forallb]. rewrite IH. reflexivity. Qed.
+
+Lemma block_parse_ok_iff s :
+  (exists i v, block_parse SplitNl s = Ok (i, v)) <-> semi_scan false s = true.
+Proof.
+  unfold block_parse, block_parse_lines. cbn [block_splitlines].
+  rewrite forallb_map. fold has_semi. change (fun x => has_after (split1 SEMI x)) with has_semi.
+  rewrite <- (semi_scan_lines s false).
+  destruct (splitlines_nl s) as [|l ls] eqn:E.
+  - pose proof (is_lines_nonempty _ (splitlines_is_lines s)) as H. rewrite E in H. congruence.
+  - cbn [forallb orb]. destruct (has_semi l && forallb has_semi ls); split; intros H.
+    + reflexivity.
+    + eexists. eexists. reflexivity.
+    + destruct H as [i [v H]]. discriminate.
+    + discriminate.
+Qed.
+
+Lemma block_lexeme_accepted s : lexr_block s = Some [] -> exists i v, block_parse SplitNl s = Ok (i, v).
+Proof. intros H. apply block_parse_ok_iff. apply lexeme_semi_scan. exact H. Qed.
+
+(* --- the indent read from any accepted raw text can be written back --- *)
+Lemma split1_fst_ok : forall s, match splitlines_nl s with
+  | l :: _ => forall a b, split1 SEMI l = (a, Some b) -> indent_codec_ok a = true
+  | [] => True end.
+Proof.
+  induction s as [|c s IH]; cbn [splitlines_nl].
+  - cbn. intros a b H. discriminate.
+  - destruct (c =? NL) eqn:E.
+    + cbn [split1]. apply Z.eqb_eq in E. subst c. change (NL =? SEMI) with false. cbn. intros a b H. discriminate.
+    + destruct (splitlines_nl s) as [|l ls]; cbn [split1].
+      * destruct (c =? SEMI); intros a b H; inversion H. reflexivity.
+      * destruct (c =? SEMI) eqn:Es; intros a b H; [inversion H; reflexivity|].
+        destruct (split1 SEMI l) as [a' b'] eqn:El. inversion H; subst.
+        unfold indent_codec_ok. cbn [forallb]. rewrite Es, E. cbn [negb andb]. exact (IH a' b eq_refl).
+Qed.
+Lemma block_parse_indent_ok s i v : block_parse SplitNl s = Ok (i, v) -> indent_codec_ok i = true.
+Proof.
+  unfold block_parse, block_parse_lines. cbn [block_splitlines]. pose proof (split1_fst_ok s) as H.
+  destruct (splitlines_nl s) as [|l ls]; [cbn; intros H0; inversion H0; reflexivity|].
+  cbn [map forallb]. destruct (split1 SEMI l) as [a [b|]] eqn:El; cbn [has_after snd andb]; [|discriminate].
+  destruct (forallb has_after (map (split1 SEMI) ls)); [|discriminate].
+  intros H0. inversion H0; subst. exact (H i b eq_refl).
+Qed.
+
+(* --- assignment histories of a BlockComment --- *)
+Definition b_coherent (t : btok) : Prop :=
+  indent_codec_ok (b_indent t) = true /\ block_parse SplitNl (b_raw t) = Ok (b_indent t, b_value t).
+Definition b_op_ok (o : b_op) : Prop :=
+  match o with
+  | BSetRaw s => exists i v, block_parse SplitNl s = Ok (i, v)
+  | BSetValue _ => True
+  | BSetIndent i => indent_codec_ok i = true
+  end.
+Lemma b_step_coherent t o : b_coherent t -> b_op_ok o ->
+  b_coherent (fst (b_step SplitNl t o)) /\ snd (b_step SplitNl t o) = Ok tt.
+Proof.
+  intros [Hi Hp] Ho. destruct o as [s|v|i]; cbn [b_op_ok b_step] in *.
+  - destruct Ho as [i [v Hs]]. rewrite Hs. cbn. split; [|reflexivity]. split; [|exact Hs].
+    exact (block_parse_indent_ok _ _ _ Hs).
+  - cbn. split; [|reflexivity]. split; [exact Hi|]. apply block_roundtrip. exact Hi.
+  - cbn. split; [|reflexivity]. split; [exact Ho|]. apply block_roundtrip. exact Ho.
+Qed.
+Lemma b_history t ops : b_coherent t -> Forall b_op_ok ops -> b_coherent (b_run SplitNl t ops).
+Proof.
+  revert t. induction ops as [|o ops IH]; intros t Ht Hops; cbn [b_run]; [exact Ht|].
+  inversion Hops; subst. apply IH; [|assumption]. apply b_step_coherent; assumption.
+Qed.
+Lemma b_from_value_coherent i v : indent_codec_ok i = true -> b_coherent (b_from_value SplitNl i v).
+Proof. intros Hi. split; [exact Hi|]. cbn. apply block_roundtrip. exact Hi. Qed.
+Lemma b_from_raw_text_ok s t : b_from_raw_text SplitNl s = Ok t -> b_raw t = s /\ b_coherent t.
+Proof.
+  unfold b_from_raw_text. destruct (block_parse SplitNl s) as [[i v]|] eqn:E; intros H; inversion H; subst.
+  cbn. split; [reflexivity|]. split; [exact (block_parse_indent_ok _ _ _ E) | exact E].
+Qed.
+Lemma ws_indent_codec_ok i : dom_block_indent i = true -> indent_codec_ok i = true.
+Proof.
+  unfold dom_block_indent, indent_codec_ok. apply forallb_imp. intros c H.
+  unfold is_ws, SPACE, TAB, SEMI, NL in *. lia.
+Qed.
+
+(* --- the code as found (str.splitlines) refutes both statements --- *)
+Lemma block_found_refuted_lexeme :
+  exists s, lexr_block s = Some [] /\ block_parse SplitPy s = Err ValueError.
+Proof. exists [SEMI; SPACE; 97; 12; 98]. split; vm_compute; reflexivity. Qed.
+Lemma block_found_refuted_relex :
+  exists v, dom_block_value v = true /\ lexr_block (block_format SplitPy [] v) <> Some [].
+Proof. exists [97; CR; CR; NL; 98]. split; [vm_compute; reflexivity | vm_compute; discriminate]. Qed.
+
+(* ---------------------------------------------------------------------------------------------- *)
+(* Date (repaired formatting: zero padded year)                                                   *)
+Lemma digit_char_digit x : 0 <= x < 10 -> is_digit (digit_char x) = true.
+Proof. unfold is_digit, digit_char. lia. Qed.
+Lemma digit_char_not_sep x : 0 <= x < 10 -> is_datesep (digit_char x) = false.
+Proof. unfold is_datesep, digit_char, DASH, SLASH. lia. Qed.
+Lemma digit_val_char x : digit_val (digit_char x) = x.
+Proof. unfold digit_val, digit_char. lia. Qed.
+
+Lemma lexr_date_shape c1 c2 c3 c4 c5 c6 c7 c8 :
+  is_digit c1 = true -> is_digit c2 = true -> is_digit c3 = true -> is_digit c4 = true ->
+  is_digit c5 = true -> is_digit c6 = true -> is_digit c7 = true -> is_digit c8 = true ->
+  lexr_date [c1; c2; c3; c4; DASH; c5; c6; DASH; c7; c8] = Some [].
+Proof.
+  intros H1 H2 H3 H4 H5 H6 H7 H8. unfold lexr_date. cbn [take skip]. rewrite H1, H2, H3, H4.
+  change (is_digit DASH) with false. cbv iota. cbn [zlen length lexr_sep].
+  change (is_datesep DASH) with true. cbv iota. change (4 <=? Z.of_nat 4) with true. cbv iota.
+  cbn [lexr_d12]. rewrite H5, H6. cbn [lexr_sep]. change (is_datesep DASH) with true. cbv iota.
+  cbn [lexr_d12]. rewrite H7, H8. reflexivity.
+Qed.
+
+Lemma split_datesep_digits c1 c2 c3 c4 c5 c6 c7 c8 :
+  is_datesep c1 = false -> is_datesep c2 = false -> is_datesep c3 = false -> is_datesep c4 = false ->
+  is_datesep c5 = false -> is_datesep c6 = false -> is_datesep c7 = false -> is_datesep c8 = false ->
+  split_datesep [c1; c2; c3; c4; DASH; c5; c6; DASH; c7; c8] = [[c1; c2; c3; c4]; [c5; c6]; [c7; c8]].
+Proof.
+  intros H1 H2 H3 H4 H5 H6 H7 H8. cbn [split_datesep]. rewrite H1, H2, H3, H4, H5, H6, H7, H8.
+  change (is_datesep DASH) with true. reflexivity.
+Qed.
+
+Lemma pad4_digits n : 0 <= n <= 9999 ->
+  exists a b c d, pad4 n = [digit_char a; digit_char b; digit_char c; digit_char d] /\
+    0 <= a < 10 /\ 0 <= b < 10 /\ 0 <= c < 10 /\ 0 <= d < 10 /\ n = 1000 * a + 100 * b + 10 * c + d.
+Proof.
+  intros Hn. exists (n / 1000 mod 10), (n / 100 mod 10), (n / 10 mod 10), (n mod 10).
+  split; [reflexivity|]. repeat split; try (apply Z.mod_pos_bound; lia).
+  Z.to_euclidean_division_equations. lia.
+Qed.
+Lemma pad2_digits n : 0 <= n <= 99 ->
+  exists a b, pad2 n = [digit_char a; digit_char b] /\ 0 <= a < 10 /\ 0 <= b < 10 /\ n = 10 * a + b.
+Proof.
+  intros Hn. exists (n / 10 mod 10), (n mod 10).
+  split; [reflexivity|]. repeat split; try (apply Z.mod_pos_bound; lia).
+  Z.to_euclidean_division_equations. lia.
+Qed.
+
+Lemma valid_date_bounds y m d : valid_date (y, m, d) = true -> 1 <= y <= 9999 /\ 1 <= m <= 12 /\ 1 <= d <= 31.
+Proof.
+  unfold valid_date, days_in_month. intros H.
+  destruct (m =? 2); [destruct (is_leap y)|]; [| |destruct ((m =? 4) || (m =? 6) || (m =? 9) || (m =? 11))]; lia.
+Qed.
+
+Lemma py_int_2 a b : 0 <= a < 10 -> 0 <= b < 10 -> py_int [digit_char a; digit_char b] = Ok (10 * a + b).
+Proof.
+  intros Ha Hb. unfold py_int. cbn [is_nil forallb]. rewrite !digit_char_digit by assumption.
+  cbn [andb]. unfold int_of_digits. cbn [fold_left]. rewrite !digit_val_char. f_equal. lia.
+Qed.
+Lemma py_int_4 a b c d : 0 <= a < 10 -> 0 <= b < 10 -> 0 <= c < 10 -> 0 <= d < 10 ->
+  py_int [digit_char a; digit_char b; digit_char c; digit_char d] = Ok (1000 * a + 100 * b + 10 * c + d).
+Proof.
+  intros Ha Hb Hc Hd. unfold py_int. cbn [is_nil forallb]. rewrite !digit_char_digit by assumption.
+  cbn [andb]. unfold int_of_digits. cbn [fold_left]. rewrite !digit_val_char. f_equal. lia.
+Qed.
+
+Lemma date_format_shape y m d : valid_date (y, m, d) = true ->
+  exists a b c e f g h i,
+    date_format DatePadded (y, m, d) =
+      [digit_char a; digit_char b; digit_char c; digit_char e; DASH; digit_char f; digit_char g; DASH;
+       digit_char h; digit_char i] /\
+    0 <= a < 10 /\ 0 <= b < 10 /\ 0 <= c < 10 /\ 0 <= e < 10 /\ 0 <= f < 10 /\ 0 <= g < 10 /\
+    0 <= h < 10 /\ 0 <= i < 10 /\
+    y = 1000 * a + 100 * b + 10 * c + e /\ m = 10 * f + g /\ d = 10 * h + i.
+Proof.
+  intros Hv. apply valid_date_bounds in Hv as [Hy [Hm Hd]].
+  destruct (pad4_digits y) as [a [b [c [e [Py [Ha [Hb [Hc [He Ey]]]]]]]]]; [lia|].
+  destruct (pad2_digits m) as [f [g [Pm [Hf [Hg Em]]]]]; [lia|].
+  destruct (pad2_digits d) as [h [i [Pd [Hh [Hi Ed]]]]]; [lia|].
+  exists a, b, c, e, f, g, h, i. unfold date_format. rewrite Py, Pm, Pd. cbn [app].
+  repeat split; assumption || lia.
+Qed.
+
+Lemma date_roundtrip v : valid_date v = true -> date_parse (date_format DatePadded v) = Ok v.
+Proof.
+  destruct v as [[y m] d]. intros Hv.
+  destruct (date_format_shape y m d Hv) as [a [b [c [e [f [g [h [i [E [Ha [Hb [Hc [He [Hf [Hg [Hh [Hi [Ey [Em Ed]]]]]]]]]]]]]]]]]]].
+  rewrite E. unfold date_parse.
+  rewrite split_datesep_digits by (apply digit_char_not_sep; assumption).
+  rewrite py_int_4, !py_int_2 by assumption. rewrite <- Ey, <- Em, <- Ed, Hv. reflexivity.
+Qed.
+Lemma date_lexr v : valid_date v = true -> lexr_date (date_format DatePadded v) = Some [].
+Proof.
+  destruct v as [[y m] d]. intros Hv.
+  destruct (date_format_shape y m d Hv) as [a [b [c [e [f [g [h [i [E [Ha [Hb [Hc [He [Hf [Hg [Hh [Hi _]]]]]]]]]]]]]]]]].
+  rewrite E. apply lexr_date_shape; apply digit_char_digit; assumption.
+Qed.
+Lemma date_found_refuted : exists v, valid_date v = true /\ lexr_date (date_format DateStrftime v) = None.
+Proof. exists (999, 1, 2). split; vm_compute; reflexivity. Qed.
+
+(* ---------------------------------------------------------------------------------------------- *)
+(* Tag, Link, MetaKey, Bool, Null                                                                 *)
+Lemma tag_roundtrip v : tag_parse (tag_format v) = Ok v. Proof. reflexivity. Qed.
+Lemma link_roundtrip v : link_parse (link_format v) = Ok v. Proof. reflexivity. Qed.
+Lemma metakey_roundtrip v : metakey_parse (metakey_format v) = Ok v.
+Proof. unfold metakey_parse, metakey_format, slice_m1. rewrite removelast_app_one. reflexivity. Qed.
+Lemma prefixed_lexr x v : dom_tag v = true -> lexr_prefixed x (x :: v) = Some [].
+Proof.
+  unfold dom_tag, lexr_prefixed. intros H. apply andb_prop in H as [Hne Hall].
+  rewrite Z.eqb_refl, (take_all _ _ Hall), (skip_all _ _ Hall). destruct v; [discriminate|reflexivity].
+Qed.
+Lemma tag_lexr v : dom_tag v = true -> lexr_tag (tag_format v) = Some [].
+Proof. apply prefixed_lexr. Qed.
+Lemma link_lexr v : dom_tag v = true -> lexr_link (link_format v) = Some [].
+Proof. apply prefixed_lexr. Qed.
+Lemma metakey_lexr v : dom_metakey v = true -> lexr_metakey (metakey_format v) = Some [].
+Proof.
+  unfold dom_metakey, lexr_metakey, metakey_format. destruct v as [|c r]; [discriminate|].
+  intros H. apply andb_prop in H as [H Hall]. apply andb_prop in H as [Hc Hne].
+  cbn [app]. rewrite Hc. rewrite (take_all_app _ _ _ _ Hall) by reflexivity.
+  rewrite (skip_all_app _ _ _ Hall). destruct r; [discriminate|]. reflexivity.
+Qed.
+Lemma bool_roundtrip b : bool_parse (bool_format b) = Ok b. Proof. destruct b; reflexivity. Qed.
+Lemma bool_lexr b : lexr_bool (bool_format b) = Some []. Proof. destruct b; reflexivity. Qed.
+Lemma null_lexr : lexr_null NULL_ = Some []. Proof. reflexivity. Qed.
+Lemma simple_roundtrip v : simple_parse (simple_format v) = Ok v. Proof. reflexivity. Qed.
+
+(* ---------------------------------------------------------------------------------------------- *)
+(* Number: non-negative plain-notation decimals                                                   *)
+Lemma digit_is_digit_char d : (0 <=? d) && (d <=? 9) = true -> is_digit (digit_char d) = true.
+Proof. unfold is_digit, digit_char. lia. Qed.
+Lemma sd_all_digits ds : all_digits ds = true -> forallb is_digit (str_of_digits ds) = true.
+Proof.
+  unfold all_digits, str_of_digits. rewrite forallb_map. apply forallb_imp. exact digit_is_digit_char.
+Qed.
+Lemma digits_of_sd ds : digits_of_str (str_of_digits ds) = ds.
+Proof.
+  unfold digits_of_str, str_of_digits. rewrite map_map. rewrite <- (map_id ds) at 2. apply map_ext.
+  exact digit_val_char.
+Qed.
+Lemma digits_of_str_app a b : digits_of_str (a ++ b) = digits_of_str a ++ digits_of_str b.
+Proof. apply map_app. Qed.
+Lemma digit_not_comma c : is_digit c = true -> negb (c =? COMMA) = true.
+Proof. unfold is_digit, COMMA. lia. Qed.
+Lemma remove_commas_plain s : forallb (fun c => negb (c =? COMMA)) s = true -> remove_commas s = s.
+Proof.
+  unfold remove_commas. induction s as [|c s IH]; [reflexivity|]. cbn [forallb filter]. intros H.
+  apply andb_prop in H as [Hc Hs]. rewrite Hc, (IH Hs). reflexivity.
+Qed.
+Lemma comma_groups_other c r : (c =? COMMA) = false -> comma_groups (c :: r) = (c :: r, 0).
+Proof. intros H. destruct r as [|d1 [|d2 [|d3 r]]]; cbn [comma_groups]; try reflexivity. rewrite H. reflexivity. Qed.
+
+Lemma number_parse_dot ip fr : ip <> [] -> forallb is_digit ip = true -> forallb is_digit fr = true ->
+  number_parse (ip ++ DOT :: fr) = Ok (0, norm_digits (digits_of_str (ip ++ fr)), - zlen fr).
+Proof.
+  intros Hne Hip Hfr. unfold number_parse.
+  rewrite remove_commas_plain.
+  2:{ apply forallb_app_true; [revert Hip; apply forallb_imp; exact digit_not_comma|].
+      cbn [forallb]. change (negb (DOT =? COMMA)) with true. cbn [andb].
+      revert Hfr. apply forallb_imp. exact digit_not_comma. }
+  rewrite (take_all_app _ _ _ _ Hip) by reflexivity.
+  rewrite (skip_all_app _ _ _ Hip), skip_stop by reflexivity.
+  change (DOT =? DOT) with true. rewrite Hfr. destruct ip; [congruence|]. reflexivity.
+Qed.
+Lemma number_parse_int ip : ip <> [] -> forallb is_digit ip = true ->
+  number_parse ip = Ok (0, norm_digits (digits_of_str ip), 0).
+Proof.
+  intros Hne Hip. unfold number_parse.
+  rewrite remove_commas_plain by (revert Hip; apply forallb_imp; exact digit_not_comma).
+  rewrite (take_all _ _ Hip), (skip_all _ _ Hip). destruct ip; [congruence|]. reflexivity.
+Qed.
+Lemma zlen_pos_nonempty {A} (l : list A) : l <> [] -> 0 < zlen l.
+Proof. destruct l; [congruence|]. intros _. rewrite zlen_cons. pose proof (zlen_nonneg l). lia. Qed.
+Lemma lexr_number_dot ip fr : ip <> [] -> forallb is_digit ip = true -> forallb is_digit fr = true ->
+  lexr_number (ip ++ DOT :: fr) = Some [].
+Proof.
+  intros Hne Hip Hfr. unfold lexr_number.
+  rewrite (take_all_app _ _ _ _ Hip) by reflexivity.
+  rewrite (skip_all_app _ _ _ Hip), skip_stop by reflexivity.
+  pose proof (zlen_pos_nonempty _ Hne) as Hpos.
+  destruct (zlen ip =? 0) eqn:E; [lia|].
+  rewrite comma_groups_other by reflexivity. rewrite andb_false_r.
+  unfold lexr_frac. change (DOT =? DOT) with true. cbv iota. rewrite (skip_all _ _ Hfr). reflexivity.
+Qed.
+Lemma lexr_number_int ip : ip <> [] -> forallb is_digit ip = true -> lexr_number ip = Some [].
+Proof.
+  intros Hne Hip. unfold lexr_number. rewrite (take_all _ _ Hip), (skip_all _ _ Hip).
+  pose proof (zlen_pos_nonempty _ Hne) as Hpos.
+  destruct (zlen ip =? 0) eqn:E; [lia|]. cbn [comma_groups]. rewrite andb_false_r. reflexivity.
+Qed.
+
+Lemma strip_zeros_repeat k ds : strip_zeros (repeat 0 k ++ ds) = strip_zeros ds.
+Proof. induction k as [|k IH]; [reflexivity|]. cbn [repeat app strip_zeros]. exact IH. Qed.
+Lemma norm_canonical ds : canonical_digits ds = true -> norm_digits ds = ds.
+Proof.
+  unfold canonical_digits, norm_digits. intros H. apply andb_prop in H as [_ H].
+  destruct ds as [|d [|d2 r]]; [discriminate| |].
+  - cbn [strip_zeros]. destruct (d =? 0) eqn:E; [apply Z.eqb_eq in E; subst; reflexivity|reflexivity].
+  - cbn [strip_zeros]. apply negb_true_iff in H. rewrite H. reflexivity.
+Qed.
+Lemma norm_zeros_canonical k ds : canonical_digits ds = true -> norm_digits (repeat 0 k ++ ds) = ds.
+Proof.
+  intros H. unfold norm_digits. rewrite strip_zeros_repeat. exact (norm_canonical _ H).
+Qed.
+Lemma sd_repeat k : str_of_digits (repeat 0 k) = repeat 48 k.
+Proof. induction k as [|k IH]; [reflexivity|]. cbn [repeat str_of_digits map]. f_equal. exact IH. Qed.
+Lemma sd_app a b : str_of_digits (a ++ b) = str_of_digits a ++ str_of_digits b.
+Proof. apply map_app. Qed.
+Lemma all_digits_repeat k : all_digits (repeat 0 k) = true.
+Proof. induction k as [|k IH]; [reflexivity|]. cbn [repeat all_digits forallb]. exact IH. Qed.
+Lemma zlen_sd ds : zlen (str_of_digits ds) = zlen ds.
+Proof. unfold zlen, str_of_digits. rewrite map_length. reflexivity. Qed.
+Lemma zlen_repeat {A} (x : A) k : zlen (repeat x k) = Z.of_nat k.
+Proof. unfold zlen. rewrite repeat_length. reflexivity. Qed.
+
+(* the three layouts str() uses in the domain *)
+Lemma number_format_shape ds e :
+  dom_number (0, ds, e) = true ->
+  (e = 0 /\ number_format (0, ds, e) = str_of_digits ds) \/
+  (exists ip fr, number_format (0, ds, e) = str_of_digits ip ++ DOT :: str_of_digits fr /\
+     ip <> [] /\ all_digits ip = true /\ all_digits fr = true /\
+     norm_digits (ip ++ fr) = ds /\ - zlen fr = e).
+Proof.
+  unfold dom_number. intros H. apply andb_prop in H as [H H4]. apply andb_prop in H as [H H3].
+  apply andb_prop in H as [_ Hc].
+  assert (Hall : all_digits ds = true) by (unfold canonical_digits in Hc; apply andb_prop in Hc as [Hc _]; exact Hc).
+  assert (Hn : 0 < zlen ds).
+  { apply zlen_pos_nonempty. unfold canonical_digits in Hc. apply andb_prop in Hc as [_ Hc].
+    destruct ds; [discriminate|discriminate]. }
+  unfold number_format. cbn [Z.eqb]. change (0 =? 1) with false. cbv iota. cbn [app].
+  assert (Hdp : ((e <=? 0) && (-6 <? e + zlen ds)) = true) by lia. rewrite Hdp.
+  rewrite Z.eqb_refl, app_nil_r.
+  destruct (e + zlen ds <=? 0) eqn:E1.
+  - right. exists [0], (repeat 0 (Z.to_nat (- (e + zlen ds))) ++ ds). unfold zrepeat.
+    rewrite sd_app, sd_repeat. split; [reflexivity|]. split; [discriminate|]. split; [reflexivity|].
+    split; [unfold all_digits; rewrite forallb_app; fold (all_digits (repeat 0 (Z.to_nat (- (e + zlen ds)))));
+            rewrite all_digits_repeat; exact Hall|].
+    split; [change ([0] ++ repeat 0 (Z.to_nat (- (e + zlen ds))) ++ ds)
+              with (repeat 0 (S (Z.to_nat (- (e + zlen ds)))) ++ ds); apply norm_zeros_canonical; exact Hc|].
+    rewrite zlen_app, zlen_repeat. lia.
+  - destruct (zlen ds <=? e + zlen ds) eqn:E2.
+    + left. assert (e = 0) by lia. subst e. split; [reflexivity|].
+      unfold zrepeat. replace (Z.to_nat (0 + zlen ds - zlen ds)) with O by lia. cbn [repeat]. apply app_nil_r.
+    + right. exists (zfirstn (e + zlen ds) ds), (zskipn (e + zlen ds) ds).
+      split; [reflexivity|]. unfold zfirstn, zskipn.
+      assert (Hk : (0 < Z.to_nat (e + zlen ds) < length ds)%nat) by (unfold zlen in *; lia).
+      pose proof (firstn_skipn (Z.to_nat (e + zlen ds)) ds) as Hfs.
+      split; [intros Hnil; apply (f_equal (@length Z)) in Hnil; rewrite firstn_length in Hnil; cbn in Hnil; lia|].
+      unfold all_digits in *. rewrite <- Hfs, forallb_app in Hall. apply andb_prop in Hall as [Hf Hs].
+      split; [exact Hf|]. split; [exact Hs|]. rewrite Hfs.
+      split; [exact (norm_canonical _ Hc)|]. unfold zlen in *. rewrite skipn_length. lia.
+Qed.
+
+Lemma number_roundtrip v : dom_number v = true -> number_parse (number_format v) = Ok v.
+Proof.
+  destruct v as [[sg ds] e]. intros H.
+  assert (Hs : sg = 0) by (unfold dom_number in H; lia). subst sg.
+  pose proof H as Hdom. unfold dom_number in H. apply andb_prop in H as [H _]. apply andb_prop in H as [H _].
+  apply andb_prop in H as [_ Hc].
+  destruct (number_format_shape ds e Hdom) as [[He Hf] | [ip [fr [Hf [Hne [Hip [Hfr [Hnorm He]]]]]]]].
+  - subst e. rewrite Hf. rewrite number_parse_int.
+    + rewrite digits_of_sd, (norm_canonical _ Hc). reflexivity.
+    + unfold canonical_digits in Hc. apply andb_prop in Hc as [_ Hc]. destruct ds; [discriminate|discriminate].
+    + apply sd_all_digits. unfold canonical_digits in Hc. apply andb_prop in Hc as [Hc _]. exact Hc.
+  - rewrite Hf. rewrite number_parse_dot.
+    + rewrite digits_of_str_app, !digits_of_sd, Hnorm, zlen_sd, He. reflexivity.
+    + destruct ip; [congruence|discriminate].
+    + apply sd_all_digits. exact Hip.
+    + apply sd_all_digits. exact Hfr.
+Qed.
+Lemma number_lexr v : dom_number v = true -> lexr_number (number_format v) = Some [].
+Proof.
+  destruct v as [[sg ds] e]. intros H.
+  assert (Hs : sg = 0) by (unfold dom_number in H; lia). subst sg.
+  pose proof H as Hdom. unfold dom_number in H. apply andb_prop in H as [H _]. apply andb_prop in H as [H _].
+  apply andb_prop in H as [_ Hc].
+  destruct (number_format_shape ds e Hdom) as [[He Hf] | [ip [fr [Hf [Hne [Hip [Hfr [Hnorm He]]]]]]]].
+  - rewrite Hf. apply lexr_number_int.
+    + unfold canonical_digits in Hc. apply andb_prop in Hc as [_ Hc]. destruct ds; [discriminate|discriminate].
+    + apply sd_all_digits. unfold canonical_digits in Hc. apply andb_prop in Hc as [Hc _]. exact Hc.
+  - rewrite Hf. apply lexr_number_dot.
+    + destruct ip; [congruence|discriminate].
+    + apply sd_all_digits. exact Hip.
+    + apply sd_all_digits. exact Hfr.
+Qed.
+
+(* ---------------------------------------------------------------------------------------------- *)
+(* "the text is one lexeme": the recogniser's match is the whole text                             *)
+Lemma len_matched_full s r : len_matched s r = Some (zlen s) <-> r = Some [].
+Proof.
+  split; [|intros ->; apply len_matched_nil].
+  destruct r as [t|]; [|discriminate]. cbn [len_matched]. intros H. inversion H as [H'].
+  destruct t; [reflexivity|]. rewrite zlen_cons in H'. pose proof (zlen_nonneg t). lia.
+Qed.
+
+(* ---------------------------------------------------------------------------------------------- *)
+(* the history statement of one single-value token class                                          *)
+Definition history_ok {V} (parse : str -> res V) (format : V -> str) (dom : V -> bool) : Prop :=
+  (forall v, dom v = true -> coherent parse (sv_from_value format v)) /\
+  forall (t : tok V) (ops : list (sv_op V)),
+    coherent parse t -> Forall (op_ok parse dom) ops -> coherent parse (sv_run parse format t ops).
+Lemma history_ok_of {V} (parse : str -> res V) format dom :
+  (forall v, dom v = true -> parse (format v) = Ok v) -> history_ok parse format dom.
+Proof. intros H. split; [apply sv_from_value_coherent, H | apply sv_history, H]. Qed.
